@@ -158,6 +158,25 @@ def Cyc.advance (c : Cyc) (n : Int) : M Cyc :=
 /-- `distance_to(other)` = `std::distance(it_, other.it_)` -/
 def Cyc.distanceTo (c o : Cyc) : Int := o.it - c.it
 
+/-- a history of iterator operations: `++it`, `--it`, `it += n` (`it -= n` is `it += -n`, see iterator/base_impl.hpp) -/
+inductive CycOp where
+  | inc
+  | dec
+  | adv (n : Int)
+  deriving Repr, DecidableEq
+
+def Cyc.apply (c : Cyc) : CycOp → M Cyc
+  | .inc => .ok c.increment
+  | .dec => .ok c.decrement
+  | .adv n => c.advance n
+
+def Cyc.run (c : Cyc) : List CycOp → M Cyc
+  | [] => .ok c
+  | o :: os =>
+    match c.apply o with
+    | .ok c' => c'.run os
+    | .error e => .error e
+
 /-- `n` applications of a step -/
 def iter {α : Type} (f : α → α) : Nat → α → α
   | 0, a => a
